@@ -108,6 +108,19 @@ pub fn dispatch(p: &[String]) -> String {
                 Err(e) => format!("{{\"result\": {}}}", jstr(&format!("Err({:?})", e))),
             }
         }
+        "type_identical" => {
+            // type_identical <opcode A> <ids A, comma separated or -> <opcode B> <ids B>
+            fn mk(op: &str, ids: &str) -> Option<rspirv::dr::Instruction> {
+                let opc = spirv::Op::from_u32(op.parse::<u32>().ok()?)?;
+                let ops: Vec<rspirv::dr::Operand> = if ids == "-" { vec![] } else {
+                    ids.split(',').map(|x| rspirv::dr::Operand::IdRef(x.parse::<u32>().unwrap_or(0))).collect() };
+                Some(rspirv::dr::Instruction::new(opc, None, Some(1), ops))
+            }
+            match (mk(&p[1], &p[2]), mk(&p[3], &p[4])) {
+                (Some(a), Some(b)) => format!("{{\"identical\": {}, \"reverse\": {}}}", a.is_type_identical(&b), b.is_type_identical(&a)),
+                _ => "{\"error\": \"unknown opcode\"}".to_string(),
+            }
+        }
         "storage_step" => storage_step(&p[1], if p.len() > 2 { &p[2] } else { "-" }),
         "lift_probe" => generated::lift_probe(p[1].parse::<u32>().unwrap_or(0)),
         "disas_operand" => generated::disas_operand(&p[1], p[2].parse::<u64>().unwrap_or(0)),
